@@ -43,7 +43,13 @@ type vfCacheCase struct {
 	Steps []vfCacheStep `json:"steps,omitempty"`
 }
 
-func vfCacheKey(k int) string { return fmt.Sprintf("k%d", k) }
+// keys are what the middleware uses as keys: short identifiers, and whole tokens of several kilobytes
+func vfCacheKey(k int) string {
+	if k%7 == 5 {
+		return fmt.Sprintf("k%d~%s", k, strings.Repeat("x", 2100+(k%3)*1500))
+	}
+	return fmt.Sprintf("k%d", k)
+}
 
 func vfRunCacheCase(cs *vfCacheCase) {
 	c := vfNewCache(cs.Cap)
@@ -154,9 +160,13 @@ func vfGenCacheCase(r *vfRand, id int, profile string) *vfCacheCase {
 		}
 	}
 	val := int64(1)
+	koff := 0
+	if r.chance(1, 2) { // half of the histories have a token-sized key (several kilobytes) among theirs: key numbers 5, 12, 19 ...
+		koff = 5
+	}
 	for i := 0; i < nops; i++ {
 		x := r.intn(100)
-		k := r.intn(nkeys)
+		k := koff + r.intn(nkeys)
 		switch {
 		case x < 40:
 			ttl := int64(r.pick(vfTTLHours)) * int64(time.Hour)
@@ -364,6 +374,17 @@ func vfCacheCorpus() []*vfCacheCase {
 	m := int64(time.Minute)
 	return []*vfCacheCase{
 		vfDeepExpiredCase(40, 35), vfDeepExpiredCase(70, 64),
+		// through the token-cache wrapper and directly: a value stored right after a Delete of its key is observable; a Delete
+		// of an absent key changes nothing (a full cache keeps its entries); long keys among them
+		{Kind: "corpus", Cap: 4, Wrap: true, Ops: []vfCacheOp{
+			{O: "set", K: 0, V: 1, TTL: h}, {O: "get", K: 0}, {O: "del", K: 0}, {O: "get", K: 0}, {O: "set", K: 0, V: 2, TTL: h}, {O: "get", K: 0},
+			{O: "set", K: 5, V: 3, TTL: h}, {O: "del", K: 5}, {O: "set", K: 5, V: 4, TTL: h}, {O: "get", K: 5}, {O: "adv", D: m}, {O: "get", K: 0}, {O: "get", K: 5}}},
+		{Kind: "corpus", Cap: 2, Wrap: true, Ops: []vfCacheOp{
+			{O: "set", K: 0, V: 1, TTL: h}, {O: "set", K: 1, V: 2, TTL: h}, {O: "del", K: 2}, {O: "get", K: 0}, {O: "get", K: 1}, {O: "del", K: 5}, {O: "del", K: 3},
+			{O: "get", K: 0}, {O: "get", K: 1}}},
+		{Kind: "corpus", Cap: 2, Ops: []vfCacheOp{
+			{O: "set", K: 5, V: 1, TTL: h}, {O: "set", K: 1, V: 2, TTL: h}, {O: "set", K: 2, V: 3, TTL: h}, {O: "set", K: 3, V: 4, TTL: h}, {O: "get", K: 5}, {O: "get", K: 1},
+			{O: "set", K: 12, V: 5, TTL: -h}, {O: "set", K: 1, V: 6, TTL: h}, {O: "set", K: 4, V: 7, TTL: h}, {O: "get", K: 12}, {O: "get", K: 4}}},
 		{Kind: "corpus", Cap: 2, Ops: []vfCacheOp{ // LRU victim is the least recently *used*, reads count
 			{O: "set", K: 0, V: 1, TTL: h}, {O: "set", K: 1, V: 2, TTL: h}, {O: "get", K: 0},
 			{O: "set", K: 2, V: 3, TTL: h}, {O: "get", K: 0}, {O: "get", K: 1}, {O: "get", K: 2}}},
